@@ -23,7 +23,7 @@ PROP = "C12"
 LEVEL = "exploration"
 
 TITLES = ["Foo", "foo bar", "Ünï/sub", "A:B c", "Foo/documentation", "Foo/testcases/x", "Foo/documentation/x",
-          "a&b<c>\"d\"", "Main:Foo"]
+          "a&b<c>\"d\"", "Main:Foo", "Foo/testcases2", "Foo/testcases", "Foo/mytestcases", "Foo/documentation2", "testcases"]
 BODIES = ["x", " lead", "trail \n", "\n\nblank\n\n", "a&amp;b <tag> ]]> & \"q\"", "",
           "<noinclude>doc</noinclude>body<includeonly>inc</includeonly>", "<!-- c -->t<onlyinclude>only</onlyinclude>u",
           "a\r\nb", "\tt", "x<noinclude>unclosed"]
@@ -220,7 +220,7 @@ def main(run):
     cov = {
         "distinct_nontrivial": len(run.acc.sets.get("pages", ())),
         "rule": "single-page dumps: %d namespaces of the en data x %d title shapes (plain, blank, Unicode+slash, colon inside, /documentation, "
-                "/testcases/x, /documentation/x, XML-special characters, Main: pseudo-prefix) x %d body shapes (XML specials, leading/trailing "
+                "/testcases/x, /documentation/x, /testcases, /testcases2, /mytestcases, /documentation2, bare 'testcases', XML-special characters, Main: pseudo-prefix) x %d body shapes (XML specials, leading/trailing "
                 "blank lines, tabs, empty, ]]>, inclusion tags, comments, CR-LF as &#13;, unclosed noinclude) x 6 content models x "
                 "redirect yes/no; every namespace x 4 selection sets; every ordered pair of a %d-page collision catalogue (same title in "
                 "several namespaces, duplicates, first-letter case twins, the four default-template names, redirects). distinct = distinct "
